@@ -10,7 +10,7 @@
     Graphs: node ids pairwise distinct ([NoDup (node_ids g)], guaranteed by networkx); adjacency is symmetric by
     construction ([LGraph.adj]). *)
 From Coq Require Import List NArith ZArith Bool Arith Permutation Sorted.
-From SK Require Import lib.LGraph model.C12_Model model.C12_State proof.C12_Search proof.C12_Proof proof.C12_Prune proof.C12_Enum proof.C12_Sorted proof.C12_Component proof.C12_Mol proof.C12_State.
+From SK Require Import lib.LGraph model.C12_Model model.C12_Trace model.C12_State proof.C12_Search proof.C12_Proof proof.C12_Prune proof.C12_Enum proof.C12_Sorted proof.C12_Component proof.C12_Mol proof.C12_State proof.C12_Trace proof.C12_LastSize.
 Import ListNotations.
 
 (** ** 0. the specification: a common induced sub-graph mapping, written out.
@@ -565,3 +565,40 @@ Theorem C12_mtg_history_valid :
         exists m', In m' (t_maps stf) /\ Permutation m m').
 Proof. exact mtg_history_valid. Qed.
 Print Assumptions C12_mtg_history_valid.
+
+(** ** 18. (round 5) intermediate values of the search: the trace of GraphMatcher objects ([search_trace]; compared with the
+    instrumented implementation on every plain search call: [run_matcher_tr], [run_mtg_tr], [find_tok], [t_find_tok]).
+    One entry per GraphMatcher object the search counts; every entry is a k-subset of the pattern's nodes (k between 1 and
+    min(|pattern|, |host|), subsets as sub-lists in node order = itertools.combinations) with the number of results of the
+    verified enumerator for it; in maximum mode the trace stops with the first level that yields an isomorphism (all
+    earlier entries have count 0). *)
+Theorem C12_search_trace :
+  forall (nm : option nattr -> option nattr -> bool) (em : eattr -> eattr -> bool) (pattern host : graph),
+  (forall mcs, length (search_trace nm em pattern host mcs) = snd (search_subgraphs nm em pattern host mcs)) /\
+  (forall mcs nodes c, In (nodes, c) (search_trace nm em pattern host mcs) ->
+     exists k, 1 <= k <= Nat.min (n_nodes pattern) (n_nodes host) /\ In nodes (combs (node_ids pattern) k) /\
+               c = length (sub_isos nm em pattern host nodes)) /\
+  (forall k, let t := trace_loop nm em true pattern host k in
+     ((forall j, 1 <= j <= k -> level nm em pattern host j = []) /\ (forall p, In p t -> snd p = 0)) \/
+     (exists b, 1 <= b <= k /\ level nm em pattern host b <> [] /\
+                (forall j, b < j <= k -> level nm em pattern host j = []) /\
+                exists pre, t = pre ++ level_trace nm em pattern host b /\ forall p, In p pre -> snd p = 0)).
+Proof.
+  exact (fun nm em pattern host => conj (search_trace_length nm em pattern host)
+           (conj (search_trace_entries nm em pattern host) (search_trace_early_exit nm em pattern host))).
+Qed.
+Print Assumptions C12_search_trace.
+
+(** ** 19. (round 5) [last_size] in ALL-SIZES mode (compared since round 1, proved now; the property text does not speak about
+    it): 0 with an empty result, otherwise the size of the SMALLEST returned mapping -- [best_size] is overwritten on the way
+    down -- and some returned mapping has exactly that size.  (The docstring of the property says "size of the largest
+    mapping"; [Example_last_size]: C-C=O against O=C returns sizes [2; 1; 1; 1] and last_size 1.) *)
+Theorem C12_last_size_all_sizes :
+  forall (nm : option nattr -> option nattr -> bool) (em : eattr -> eattr -> bool) (pattern host : graph),
+  NoDup (node_ids pattern) ->
+  forall (maps : list mapping) (last tried : nat),
+  search_subgraphs nm em pattern host false = (maps, last, tried) ->
+  (maps = [] /\ last = 0) \/
+  (1 <= last /\ (exists m, In m maps /\ length m = last) /\ forall m, In m maps -> last <= length m).
+Proof. exact last_size_all_sizes. Qed.
+Print Assumptions C12_last_size_all_sizes.
